@@ -43,6 +43,8 @@ func runC18(c *Ctx) {
 	// every acknowledged operation is stored: what Commit takes off the staging list goes into a pack (shared with C04)
 	checkAuthorSplit(c)
 	checkGuardedAliasesAndSnapshot(c, lw)
+	checkGoGitExclusive(c, "R18.11")
+	checkIdentityInterfaceLockFree(c, "R18.12", lw)
 	fns := lockScopeFns(w)
 	exemptHold := map[string]string{
 		"cache.CachedEntityBase.Lock": "documented: locks an evicted instance forever so that stale users block instead of diverging",
